@@ -74,7 +74,7 @@ impl History {
             .filter_map(|a| Some((a.get(0)?.as_u64()?, a.get(1)?.as_u64()? as u32)))
             .collect();
         let n_keys = attempts.iter().map(|a| a.1 + 1).max().unwrap_or(1).max(u("n_keys").unwrap_or(1) as u32);
-        if n_keys > 16 {
+        if n_keys > 4096 {
             return None;
         }
         Some(History {
@@ -228,11 +228,20 @@ fn generate(seed: u64, index: u64) -> History {
     } else {
         *rng.pick(&["dense", "threshold", "boundary", "sparse", "burst-and-wait", "mixed", "mixed", "boundary"])
     };
-    let keying = if n_keys == 1 {
+    let mut keying = if n_keys == 1 {
         "single"
     } else {
         *rng.pick(&["uniform", "hot", "round-robin", "phased", "phased", "hot"])
     };
+    // address rotation: every attempt comes from a key never seen before (scans, changing source
+    // ports behind a NAT): nothing ever "returns", yet idle entries must still be forgotten
+    let mut n_keys = n_keys;
+    let mut len = len;
+    if !big && rng.chance(1, 8) {
+        keying = "rotating";
+        len = len.min(400);
+        n_keys = len as u32;
+    }
     let w = tempo_weights(&mut rng, tempo);
     let p_target = *rng.pick(&[0u64, 0, 30, 70]); // percent of steps whose gap is relative to the key's own last attempt
     let p_burst = if big { 25 } else { *rng.pick(&[0u64, 3, 10, 25]) };
@@ -247,6 +256,7 @@ fn generate(seed: u64, index: u64) -> History {
         // key
         let key = match keying {
             "single" => 0,
+            "rotating" => attempts.len().min(n_keys as usize - 1) as u32,
             "uniform" => rng.below(n_keys as u64) as u32,
             "hot" => {
                 if rng.chance(85, 100) {
@@ -333,8 +343,8 @@ fn generate(seed: u64, index: u64) -> History {
 
 struct Run {
     decisions: Vec<bool>,
-    /// bitmask of tracked keys after each attempt (only when observed)
-    tracked: Vec<u32>,
+    /// tracked keys after each attempt (only when observed)
+    tracked: Vec<Vec<u32>>,
 }
 
 async fn drive(duration_ns: u64, limit: u64, attempts: &[(u64, u32)], observe: bool) -> Result<Run, String> {
@@ -355,15 +365,9 @@ async fn drive(duration_ns: u64, limit: u64, attempts: &[(u64, u32)], observe: b
         }
         decisions.push(limiter.enqueue(*key));
         if observe {
-            let mut mask = 0u32;
-            for k in limiter.verif_tracked_keys() {
-                if k < 32 {
-                    mask |= 1 << k;
-                } else {
-                    return Err(format!("limiter tracks key {k} that was never offered"));
-                }
-            }
-            tracked.push(mask);
+            let mut keys: Vec<u32> = limiter.verif_tracked_keys();
+            keys.sort_unstable();
+            tracked.push(keys);
         }
     }
     Ok(Run { decisions, tracked })
@@ -453,7 +457,7 @@ fn key_trace(h: &History, times: &[u64], dec: &[bool], key: u32, upto: usize, ma
 }
 
 /// Clauses judged from attempt times, returned booleans and the tracked-key observations.
-fn judge_bounds(h: &History, times: &[u64], dec: &[bool], tracked: &[u32], st: &mut Stats, out: &mut Vec<Finding>) {
+fn judge_bounds(h: &History, times: &[u64], dec: &[bool], tracked: &[Vec<u32>], st: &mut Stats, out: &mut Vec<Finding>) {
     let d = h.duration_ns;
     let nk = h.n_keys as usize;
     #[derive(Clone, Default)]
@@ -466,7 +470,7 @@ fn judge_bounds(h: &History, times: &[u64], dec: &[bool], tracked: &[u32], st: &
     }
     let mut ks = vec![K::default(); nk];
     let mut fired = [false; 4];
-    let mut prev_tracked = 0u32;
+    let mut prev_tracked = 0usize;
     for i in 0..times.len() {
         let (k, t, adm) = (h.attempts[i].1 as usize, times[i], dec[i]);
         st.attempts += 1;
@@ -541,18 +545,15 @@ fn judge_bounds(h: &History, times: &[u64], dec: &[bool], tracked: &[u32], st: &
         s.last_attempt = t;
 
         // tracked keys (hook H2)
-        if let Some(mask) = tracked.get(i).copied() {
+        if let Some(mask) = tracked.get(i) {
             st.tracked_observations += 1;
-            st.max_tracked = st.max_tracked.max(mask.count_ones() as u64);
-            if mask.count_ones() < prev_tracked.count_ones() {
+            st.max_tracked = st.max_tracked.max(mask.len() as u64);
+            if mask.len() < prev_tracked {
                 st.cleanups += 1;
             }
-            prev_tracked = mask;
+            prev_tracked = mask.len();
             if adm && !fired[3] {
-                for tk in 0..32usize {
-                    if mask & (1 << tk) == 0 {
-                        continue;
-                    }
+                for tk in mask.iter().map(|k| *k as usize) {
                     let stale = match ks.get(tk) {
                         Some(s) if s.seen => {
                             let silent = t - s.last_attempt;
@@ -570,7 +571,7 @@ fn judge_bounds(h: &History, times: &[u64], dec: &[bool], tracked: &[u32], st: &
                             ),
                             prefix: i + 1,
                             detail: json!({"attempt": i, "admitted_key": k, "t_ns": t, "stale_key": tk,
-                                "tracked_keys": (0..32).filter(|b| mask & (1 << b) != 0).collect::<Vec<u32>>(),
+                                "tracked_keys": mask.iter().take(64).collect::<Vec<_>>(),
                                 "last_attempt_ns_per_key": ks.iter().map(|s| if s.seen { json!(s.last_attempt) } else { Value::Null }).collect::<Vec<_>>()}),
                         });
                         break;
@@ -773,7 +774,7 @@ fn sample_json(h: &History, index: Option<u64>) -> Value {
         "limit": h.limit, "duration_ns": h.duration_ns, "n_keys": h.n_keys, "tempo": h.tempo, "keying": h.keying,
         "attempts_total": h.attempts.len(),
         "first_attempts_observed": trace.map(|r| (0..show).map(|i| json!({
-            "t_ns": times[i], "key": short.attempts[i].1, "admitted": r.decisions[i], "tracked_keys_after": r.tracked[i].count_ones()
+            "t_ns": times[i], "key": short.attempts[i].1, "admitted": r.decisions[i], "tracked_keys_after": r.tracked[i].len()
         })).collect::<Vec<_>>()),
     })
 }
